@@ -484,6 +484,11 @@ fn distinct_times(trace: &[Rec]) -> Vec<u64> {
 }
 
 fn random_schedule(rng: &mut Rng, prog: &mut Program, trace: &[Rec], with_ext: bool) -> Vec<Step> {
+    random_schedule_with(rng, prog, trace, with_ext, false)
+}
+
+/// `draining`: a third of the n-steps takes everything that is pending (external adds then hit an empty event set)
+fn random_schedule_with(rng: &mut Rng, prog: &mut Program, trace: &[Rec], with_ext: bool, draining: bool) -> Vec<Step> {
     let times = distinct_times(trace);
     let k = 1 + rng.usize_below(6);
     // nodes for external adds are appended to the program (they have no children)
@@ -501,6 +506,7 @@ fn random_schedule(rng: &mut Rng, prog: &mut Program, trace: &[Rec], with_ext: b
             match rng.below(if with_ext { 3 } else { 2 }) {
                 0 => {
                     let n = match rng.below(4) {
+                        _ if draining && rng.chance(1, 3) => trace.len() + 7,
                         0 => 0,
                         1 => 1,
                         2 => 1 + rng.usize_below(4),
@@ -662,6 +668,12 @@ pub fn cmd_c10(args: &Args) -> Report {
 // -------------------------------------------------------------------------------------------------
 
 pub fn check_c11(prog: &Program, calls: &[LimitCall], out: &Outcome, unlimited: &[Rec]) -> Vec<Finding> {
+    check_c11_ext(prog, calls, out, unlimited, 0, &[])
+}
+
+/// `stepped`: number of events the steps before the final dispatch_all handled (a step replaces the configured limit
+/// while it runs); `ext`: events added from outside between the steps (id, time)
+pub fn check_c11_ext(prog: &Program, calls: &[LimitCall], out: &Outcome, unlimited: &[Rec], stepped: usize, ext: &[(usize, u64)]) -> Vec<Finding> {
     let mut f: Vec<Finding> = Vec::new();
     if let Some(p) = &out.panicked {
         f.push(("C11", "run-panicked", format!("the limited run unwound with: {p}")));
@@ -677,6 +689,9 @@ pub fn check_c11(prog: &Program, calls: &[LimitCall], out: &Outcome, unlimited: 
         None => unlimited.len(),
         Some(tree) => (0..unlimited.len()).find(|i| tree.applies(i + 1, unlimited[*i].now_ns)).unwrap_or(unlimited.len()),
     };
+    // the limit conditions are monotone along the sequence: what the steps handled beyond p stays handled, the final
+    // dispatch_all adds nothing to it
+    let p = p.max(stepped);
     if out.log.len() != p || out.log[..] != unlimited[..p.min(unlimited.len())] {
         let kind = if out.log.len() > p { "overrun" } else if out.log.len() < p { "stopped-early" } else { "prefix-differs" };
         f.push((
@@ -699,6 +714,11 @@ pub fn check_c11(prog: &Program, calls: &[LimitCall], out: &Outcome, unlimited: 
     for r in &prog.roots {
         if !handled.contains(&r.id) {
             expected.push((r.id, r.time_ns));
+        }
+    }
+    for (id, t) in ext {
+        if !handled.contains(id) {
+            expected.push((*id, *t));
         }
     }
     for r in &out.log {
@@ -750,6 +770,39 @@ fn random_tree(rng: &mut Rng, depth: u32, n_events: usize, times: &[u64], start:
             LTree::Or(a, b)
         }
     }
+}
+
+/// the steps of a limited, stepped run on the model without any limit: (complete trace, events handled by the steps,
+/// external adds, whether an add followed a step that drained the event set)
+fn limited_steps_reference(prog: &Program, steps: &[Step], out: &Outcome) -> (Vec<Rec>, usize, Vec<(usize, u64)>, bool) {
+    let mut m = Model::new(prog);
+    if !cfg!(feature = "cq") {
+        m.guide = Some(out.log.iter().map(|r| r.id).collect());
+    }
+    m.add_roots(false);
+    m.add_roots(true);
+    let mut ext: Vec<(usize, u64)> = Vec::new();
+    let mut drained_then_added = false;
+    for s in steps {
+        match s {
+            Step::N(k) => {
+                m.dispatch_n(*k);
+            }
+            Step::Until(t) => {
+                m.dispatch_until(*t);
+            }
+            Step::Ext { time_ns, id } => {
+                if m.pending() == 0 && !m.handled.is_empty() {
+                    drained_then_added = true;
+                }
+                m.add(*time_ns, *id);
+                ext.push((*id, *time_ns));
+            }
+        }
+    }
+    let stepped = m.handled.len();
+    m.dispatch_all();
+    (m.handled.clone(), stepped, ext, drained_then_added)
 }
 
 pub fn cmd_c11(args: &Args) -> Report {
@@ -846,6 +899,25 @@ pub fn cmd_c11(args: &Args) -> Report {
                 [LimitCall::MaxTime(t)] if *t >= prog.start_ns => Some(Step::Until(*t)),
                 _ => None,
             };
+            // a configured limit must survive the stepping interface: steps (which replace it while they run), events
+            // added from outside while paused (also after a step that drained the event set), then dispatch_all + finish
+            if rng.chance(1, 4) {
+                let mut p2 = prog.clone();
+                let steps = random_schedule_with(&mut rng, &mut p2, e, true, true);
+                let sopts = RunOpts { walk_every: 0, pre_run_probes: false, default_queue: false, paused_past_probes: false, finish_after_steps: false };
+                let out = real_run(&p2, Mode::LimitedSteps(&calls, &steps), &sopts);
+                // reference: the same steps on the model, without any limit
+                let (m_handled, stepped, ext, drained_then_added) = limited_steps_reference(&p2, &steps, &out);
+                rep.count("limits_kept_across_steps_and_external_adds", 1);
+                if drained_then_added {
+                    rep.count("limited_runs_with_an_add_after_a_step_drained_the_event_set", 1);
+                }
+                let findings = check_c11_ext(&p2, &calls, &out, &m_handled, stepped, &ext);
+                let case = case_json("c11", &p2, json!({"limit_calls": serde_json::to_value(&calls).unwrap(), "steps": serde_json::to_value(&steps).unwrap(), "limited_steps": true}));
+                if !report(&mut rep, "C11", findings, &case) {
+                    break 'cases;
+                }
+            }
             if let Some(step) = step {
                 let steps = [step];
                 let sopts = RunOpts { finish_after_steps: true, ..RunOpts { walk_every: opts.walk_every, pre_run_probes: false, default_queue: false, paused_past_probes: false, finish_after_steps: true } };
@@ -887,7 +959,15 @@ pub fn replay(case: &Value) -> i32 {
     };
     let sub = case.get("sub").and_then(Value::as_str).unwrap_or("");
     println!("program: {}", serde_json::to_string(&prog).unwrap());
-    let findings: Vec<Finding> = if let Some(steps) = mode.get("steps") {
+    let findings: Vec<Finding> = if mode.get("limited_steps").and_then(Value::as_bool).unwrap_or(false) {
+        let steps: Vec<Step> = serde_json::from_value(mode.get("steps").expect("steps").clone()).expect("steps");
+        let calls: Vec<LimitCall> = serde_json::from_value(mode.get("limit_calls").expect("limit calls").clone()).expect("limit calls");
+        println!("limit calls: {calls:?}\nsteps: {steps:?}");
+        let out = real_run(&prog, Mode::LimitedSteps(&calls, &steps), &RunOpts { finish_after_steps: false, ..opts });
+        println!("trace: {:?}\nremaining: {:?}", out.log, out.remaining);
+        let (reference, stepped, ext, _) = limited_steps_reference(&prog, &steps, &out);
+        check_c11_ext(&prog, &calls, &out, &reference, stepped, &ext)
+    } else if let Some(steps) = mode.get("steps") {
         let steps: Vec<Step> = serde_json::from_value(steps.clone()).expect("steps");
         println!("steps: {steps:?}");
         let base = if mode.get("compare_uninterrupted").and_then(Value::as_bool).unwrap_or(false) {
